@@ -24,6 +24,10 @@ type c01Case struct {
 	Prog  *mj.Program `json:"prog"`
 	Path  []string    `json:"path"`  // nesting kinds, outermost first
 	Sites []string    `json:"sites"` // description of render sites
+	// Dump != "": the template is one built-in action that renders a description of variables (dump("dv"),
+	// dump(), dump(1)); such a value is a rendered value like any other. Metamorphic oracle: the output under
+	// the Set's escaper is that escaper applied to the output of the same template on a Set without escaper.
+	Dump string `json:"dump,omitempty"`
 }
 
 var c01Atoms = []string{"<", ">", "&", "'", "\"", "<b>", "&amp;", "&lt;", "a", "b", "x", " ", "é", "日", "\x00", "</script>", "&#34;", "1<2", "x&y"}
@@ -225,6 +229,24 @@ func (g *c01Gen) wrap(kind string, body []*mj.Node) []*mj.Node {
 var c01Kinds = []string{"if", "else", "range", "block", "yield-content", "default-content", "include", "try", "catch", "exec"}
 
 func genC01(t *rapid.T) c01Case {
+	if rapid.IntRange(0, 19).Draw(t, "dumpKind") == 0 {
+		p := &mj.Program{Entry: "/main.jet", Vars: map[string]mj.Recipe{"dv": mj.RStr(genSpecialString(t, "dumpval") + "<'\">"), "dw": mj.RStr(genSpecialString(t, "dumpval2"))}}
+		p.Escaper = []string{"", "", "custom"}[rapid.IntRange(0, 2).Draw(t, "dumpEscaper")]
+		d := mj.RStr("ctx<&>")
+		p.Data = &d // dump() describes the context too (and does not accept an execution without one)
+		action := rapid.SampledFrom([]string{`dump("dv")`, `dump("dv", "dw")`, `dump()`, `dump(1)`}).Draw(t, "dumpAction")
+		body := []*mj.Node{mj.Text("<pre>"), {K: "fail", Src: action, Class: "none"}, mj.Text("</pre>")}
+		switch rapid.IntRange(0, 3).Draw(t, "dumpNest") {
+		case 1:
+			body = []*mj.Node{mj.If(mj.Bool(true), body, nil)}
+		case 2:
+			body = []*mj.Node{{K: "range", E: mj.Call("slice", mj.Str("once")), Body: body}}
+		case 3:
+			body = []*mj.Node{{K: "try", Body: body}}
+		}
+		p.Files = []*mj.File{{Path: "/main.jet", Body: body}}
+		return c01Case{Prog: p, Dump: action}
+	}
 	g := &c01Gen{t: t, p: &mj.Program{Entry: "/main.jet", Vars: map[string]mj.Recipe{}, Data: &mj.Recipe{T: "map[string]any"}}}
 	main := &mj.File{Path: "/main.jet"}
 	g.p.Files = []*mj.File{main}
@@ -257,6 +279,32 @@ func genC01(t *rapid.T) c01Case {
 }
 
 func judgeC01(c c01Case) (v core.Verdict) {
+	if c.Dump != "" {
+		v.Label("dump-builtin:"+c.Dump, "escaper:"+c.Prog.Escaper)
+		v.NonTrivial = true
+		got, _, src := mj.EngineRun(c.Prog, nil)
+		plain := *c.Prog
+		plain.Escaper = "nil"
+		ref, _, _ := mj.EngineRun(&plain, nil)
+		if got.Failed() || ref.Failed() {
+			v.Failf("templates %q: %s failed: %s / without escaper: %s", src, c.Dump, got, ref)
+			return
+		}
+		esc := mj.HTMLEscape
+		if c.Prog.Escaper == "custom" {
+			esc = mj.CustomEscape
+		}
+		i, j := strings.Index(ref.Out, "<pre>"), strings.LastIndex(ref.Out, "</pre>")
+		if i < 0 || j < i {
+			v.Failf("templates %q: unexpected output without escaper: %q", src, ref.Out)
+			return
+		}
+		want := ref.Out[:i+5] + string(esc([]byte(ref.Out[i+5:j]))) + ref.Out[j:]
+		if got.Out != want {
+			v.Failf("templates %q (escaper %q): {{ %s }} renders a value; it must pass through the Set's escaper exactly once:\n got  %q\n want %q (the escaper applied to what a Set without escaper renders)", src, c.Prog.Escaper, c.Dump, got.Out, want)
+		}
+		return
+	}
 	want, discard := mj.ModelRun(c.Prog, nil)
 	if discard != "" {
 		v.Discard = "model:" + discard
@@ -316,7 +364,7 @@ func clipLong(s string) string {
 
 func TestC01(t *testing.T) {
 	core.Run(t, "C01",
-		"random nesting path (depth 0-5 of if/else/range/block/yield-with-content/default content/include/try/catch/exec, optionally under an extends layout) with 1-3 render sites per level; values (strings rich in < > & ' \" NUL multi-byte and pre-escaped entities, 4096-boundary long strings, ints, floats, bools, []byte, Stringer, error, slices, pointers) from literal / Execute variable / global / context sources; pipelines none/upper/html/raw/unsafe/safeHtml/safeJs/custom SafeWriter/prefix raw/chains; escaper default/nil/custom (byte-wise, non-idempotent); one case in four after an Execute of the same template into a destination that fails after 1-120 bytes; oracle = MiniJet reference interpreter, exact bytes; non-trivial = a value with a special byte and nesting depth >= 1",
+		"random nesting path (depth 0-5 of if/else/range/block/yield-with-content/default content/include/try/catch/exec, optionally under an extends layout) with 1-3 render sites per level; values (strings rich in < > & ' \" NUL multi-byte and pre-escaped entities, 4096-boundary long strings, ints, floats, bools, []byte, Stringer, error, slices, pointers) from literal / Execute variable / global / context sources; pipelines none/upper/html/raw/unsafe/safeHtml/safeJs/custom SafeWriter/prefix raw/chains; escaper default/nil/custom (byte-wise, non-idempotent); 1 case in 20 is a dump() / dump(n) / dump(name) action checked metamorphically against a Set without escaper; one case in four after an Execute of the same template into a destination that fails after 1-120 bytes; oracle = MiniJet reference interpreter, exact bytes; non-trivial = a value with a special byte and nesting depth >= 1",
 		genC01, judgeC01)
 }
 
